@@ -72,21 +72,25 @@ func TestVerifC17Opens(t *testing.T) {
 		return
 	}
 
-	// The child's own (content) findings count as well.
-	if b, rerr := os.ReadFile(filepath.Join(childRep, "C17.paths.json")); rerr == nil {
-		var cr verifkit.Report
-		if json.Unmarshal(b, &cr) == nil {
-			rep.EventN("content_oracle_evaluations_in_traced_run", cr.Evaluations)
-			for _, v := range cr.Violations {
-				rep.Violate(v.Key, "(in the traced run) "+v.What, v.Witness)
+	// The child's own (content) findings count as well (added last, so that
+	// the stored-witness cap does not hide the system-call findings).
+	defer func() {
+		if b, rerr := os.ReadFile(filepath.Join(childRep, "C17.paths.json")); rerr == nil {
+			var cr verifkit.Report
+			if json.Unmarshal(b, &cr) == nil {
+				rep.EventN("content_oracle_evaluations_in_traced_run", cr.Evaluations)
+				for _, v := range cr.Violations {
+					rep.Violate(v.Key, "(in the traced run) "+v.What, v.Witness)
+				}
+				for _, i := range cr.Inconclusive {
+					rep.Inconcl("traced run: " + i)
+				}
 			}
-			for _, i := range cr.Inconclusive {
-				rep.Inconcl("traced run: " + i)
-			}
+		} else {
+			rep.Inconcl("the traced run wrote no report")
 		}
-	} else {
-		rep.Inconcl("the traced run wrote no report")
-	}
+
+	}()
 
 	fh, err := os.Open(logp)
 	if err != nil {
